@@ -42,6 +42,8 @@ type Engine struct {
 	knownNames  map[string]bool // obligations recorded as known findings for curProp
 	noRetry     bool
 	curProp     string // property being checked (clause-level @Cxx filters)
+	loopSigs    map[string][]string // loop header texts recorded on the unchanged tree (baseline/loops.json)
+	curLoopSigs map[string][]string // ... of the current source, for the functions verified in this run
 	frozenIDs   map[string]bool // printed literal of frozen global object ids
 	pureMemo    map[*ssa.Function]int
 	allocTypes  map[string]types.Type
